@@ -241,14 +241,14 @@ def run_po_task(prop, po_index, shape, tier, seed, prefixes=None, split_s=None):
         covers = {}
         rec["clauses"] = clauses
         rec["failures"] = failures
-        rec["covers_expected"] = list(po.covers)
+        rec["covers_expected"] = list(po.covers(shape) if callable(po.covers) else po.covers)
         rec["functions"] = SOURCES.report()
         rec["assumptions"] = dict(ex.symtab.get("__assumptions__", {}))
         rec["solver_s"] = STATS.solver_s
         rec["feas_calls"] = STATS.feas_calls
         rec["vc_calls"] = STATS.vc_calls
         rec["unknown_feas"] = STATS.unknown_feas
-        rec["covers"] = ex_covers(ex, po)
+        rec["covers"] = ex_covers(ex, po, shape)
         # native sampling of the same contract text on the real code (sanity net, DESIGN §8.2)
         ns = cfg.get("native_samples", {"quick": 20, "thorough": 200}).get(tier, 20)
         rec["native"] = native_sampling(po, shape, seed, ns) if prefixes is None else {"ran": 0, "rejected": 0, "clause_failures": [], "exceptions": []}
@@ -322,9 +322,9 @@ def run_exhaustive_task(po, shape, tier, seed, rec, t0):
     return rec
 
 
-def ex_covers(ex, po):
+def ex_covers(ex, po, shape=None):
     out = {}
-    for lab in po.covers:
+    for lab in (po.covers(shape) if callable(po.covers) else po.covers):
         out[lab] = False
     for p_cover in getattr(ex, "path_covers", []):
         for lab in p_cover:
